@@ -4,6 +4,7 @@ import json, glob, os
 rows = []
 for f in sorted(glob.glob("/verif/seeded/*/meta.json")):
     m = json.load(open(f))
+    if "checks_run" not in m: continue
     notes = open(os.path.join(os.path.dirname(f), "notes.md")).read() if os.path.exists(os.path.join(os.path.dirname(f), "notes.md")) else ""
     first = next((l.strip("#* -") for l in notes.splitlines() if l.strip() and not l.startswith("#")), "")[:110]
     caught = "; ".join(f"{k}: {'caught' if v.startswith('CAUGHT') else 'silent'}" + (f" ({v.split('clause=')[1].split(' ')[0]})" if 'clause=' in v else "") for k, v in m["checks_run"].items())
